@@ -51,7 +51,7 @@ def rand_config2d(rng, per=None, nx=None, ny=None, smooth=True, bcs=None):
 
 
 def build2d(cfg):
-    mod = impl.euler.euler2d(gamma=cfg['gamma'])
+    mod = impl.pool('euler2d', gamma=cfg['gamma'])
     msh = impl.mesh2d.mesh2d(cfg['nx'], cfg['ny'], cfg['lx'], cfg['ly'])
     disc = impl.modeldisc.fvm2dcart(mod, msh, make_scheme2d(cfg['scheme']), {k: dict(v) for k, v in cfg['bc'].items()}, numflux=cfg['flux'])
     W = [np.array(cfg['prim'][0]), np.vstack([cfg['prim'][1], cfg['prim'][2]]), np.array(cfg['prim'][3])]
